@@ -60,7 +60,10 @@ def run_one(m):
             return {'name': name, 'status': 'PATTERN-NOT-FOUND'}
         open(p, 'w').write(s.replace(old, new, 1))
         env = dict(os.environ, PYVC_REPO=d, PYTHONPATH=d, VERIF_OUTROOT=os.path.join(d, 'out'))
-        r = subprocess.run(['./check', prop, '--tier', 'quick', '--only', only], cwd=HERE, env=env, capture_output=True, text=True, timeout=1800)
+        try:
+            r = subprocess.run(['./check', prop, '--tier', 'quick', '--only', only], cwd=HERE, env=env, capture_output=True, text=True, timeout=900)
+        except subprocess.TimeoutExpired:
+            return {'name': name, 'file': rel, 'property': prop, 'contracts': only, 'expected': expect, 'status': 'TIMEOUT', 'violations': []}
         vio = [l.split('obligation=')[1] for l in r.stdout.splitlines() if l.startswith('VIOLATION')]
         hit = [v for v in vio if expect in v]
         return {'name': name, 'file': rel, 'property': prop, 'contracts': only, 'expected': expect,
@@ -76,9 +79,11 @@ def main():
     a = ap.parse_args()
     ms = [m for m in M if a.filter in m[0]]
     with ThreadPoolExecutor(a.j) as ex:
-        res = [r for r in ex.map(run_one, ms) if r]
-    for r in res:
-        print('%-38s %-16s %s' % (r['name'], r['status'], '; '.join(r.get('violations', []))[:150]))
+        res = []
+        for r in ex.map(run_one, ms):
+            if r:
+                res.append(r)
+                print('%-38s %-16s %s' % (r['name'], r['status'], '; '.join(r.get('violations', []))[:150]), flush=True)
     if not a.filter:
         json.dump(res, open(os.path.join(HERE, 'selftest_results.json'), 'w'), indent=1)
     bad = [r for r in res if r['status'] != 'detected']
